@@ -69,3 +69,47 @@ package isobmff
 //@   ensures [C11] r0 == nil ==> b.remain == 0 && pos(b.reader.br) == old(pos(b.reader.br)) + old(b.remain)
 //@   ensures pos(b.reader.br) >= old(pos(b.reader.br))
 //@   ensures wf4(b)
+
+// remaining lengths along the chain stay non-negative (the part of wfK that a callee can change)
+//@ spec remOK(b) = b.remain >= 0 && (b.outer != nil ==> b.outer.remain >= 0 && (b.outer.outer != nil ==> b.outer.outer.remain >= 0 && (b.outer.outer.outer != nil ==> b.outer.outer.outer.remain >= 0 && (b.outer.outer.outer.outer != nil ==> b.outer.outer.outer.outer.remain >= 0))))
+
+// C11: a child box is framed by its 32-bit size (or 64-bit size after the type when the 32-bit field is 1); on success
+// the parent has been charged the header bytes, the child is linked to the parent and limits reads to its declared size.
+//@ func (*box).readInnerBox
+//@   props C01 C02 C11
+//@   requires wf3(b)
+//@   modifies stream(b.reader.br), b.remain, b.outer.remain, b.outer.outer.remain, b.outer.outer.outer.remain, b.outer.outer.outer.outer.remain, b.reader.offset
+//@   ensures remOK(b) && pos(b.reader.br) >= old(pos(b.reader.br))
+//@   ensures [C11] next ==> inner.outer == b && inner.reader == b.reader && inner.remain >= 0 && inner.remain <= int(inner.size)
+//@   ensures [C02 C11] next && err == nil ==> b.remain <= old(b.remain) - 8 && pos(b.reader.br) >= old(pos(b.reader.br)) + 8
+//@   ensures [C11] !next ==> b.remain == old(b.remain) && pos(b.reader.br) == old(pos(b.reader.br))
+
+//@ func (*Reader).readBox
+//@   props C01 C02 C11
+//@   requires r.br != nil
+//@   modifies stream(r.br), r.offset
+//@   ensures [C11] err == nil ==> b.reader == r && b.outer == nil && b.remain >= 0 && pos(r.br) >= old(pos(r.br)) + 8
+//@   ensures pos(r.br) >= old(pos(r.br))
+
+//@ func (*box).readUint16
+//@   props C01 C02 C11
+//@   requires wf4(b)
+//@   modifies stream(b.reader.br), b.remain, b.outer.remain, b.outer.outer.remain, b.outer.outer.outer.remain, b.outer.outer.outer.outer.remain, b.reader.offset
+//@   ensures remOK(b) && pos(b.reader.br) >= old(pos(b.reader.br)) && b.remain <= old(b.remain)
+
+//@ func (*box).readUUID
+//@   props C01 C02 C11
+//@   requires wf4(b)
+//@   modifies stream(b.reader.br), b.remain, b.outer.remain, b.outer.outer.remain, b.outer.outer.outer.remain, b.outer.outer.outer.outer.remain, b.reader.offset
+//@   ensures remOK(b) && pos(b.reader.br) >= old(pos(b.reader.br)) && b.remain <= old(b.remain)
+
+//@ func (*box).readFlags
+//@   props C01 C02 C11
+//@   requires wf4(b)
+//@   modifies stream(b.reader.br), b.remain, b.outer.remain, b.outer.outer.remain, b.outer.outer.outer.remain, b.outer.outer.outer.outer.remain, b.reader.offset, b.flags
+//@   ensures remOK(b) && pos(b.reader.br) >= old(pos(b.reader.br)) && b.remain <= old(b.remain)
+
+//@ func (*box).readFlagsFromBuf
+//@   props C01
+//@   requires len(buf) >= 4
+//@   modifies b.flags
